@@ -255,3 +255,21 @@ def observe_regex(pattern):
             samples.append(graphs.err_str(ex))
     out.append("samples=" + ";".join(samples))
     return "|".join(out), list(zip(entries, strs))
+
+
+def certify_line(root):
+    """node table of the graph reachable from root, for stream W (None if a link leaves the reachable part)"""
+    its = list(root.items())
+    num = {id(n): i for i, n in enumerate(its)}
+    toks = ["W", "0", str(len(its))]
+    for n in its:
+        if isinstance(n, N.Leaf):
+            k = 1 if n.is_valid else 0
+        elif isinstance(n, N.Decision):
+            k = 2 + (1 if isinstance(n, N.NoOpDecision) else 0) + (2 if n.all_transitions else 0)
+        else:
+            k = 6
+        outs = [num.get(id(t.target), 10 ** 6) for t in n.outgoing_transitions] if isinstance(n, N.Decision) else []
+        ins = [(num.get(id(i.source), 10 ** 6), i.outgoing_idx) for i in n.incoming_transitions]
+        toks += [str(k), str(len(outs))] + [str(o) for o in outs] + [str(len(ins))] + [str(x) for p in ins for x in p]
+    return " ".join(toks)
